@@ -753,4 +753,114 @@ theorem fatl_descendant_list (re : Bool) {name sub : Str} (hn : PlainKey name) (
   rw [fal_star_root]
   simpa [fatT, falMapR, flPath] using this
 
+
+/-! ## the reference in terms of positions (`getAt`) -/
+
+theorem fatl_sub_mem (sub : Str) :
+    (∀ v p w, (p, w) ∈ subV sub v ↔ SubShape sub p ∧ getAt v p = some w) ∧
+    (∀ xs i p w, (p, w) ∈ subL sub i xs ↔
+      ∃ j x r, xs[j]? = some x ∧ p = Seg.idx (i + j) :: r ∧ SubShape sub r ∧ getAt x r = some w) := by
+  have h := fad_val_ind (PV := fun v => ∀ p w, (p, w) ∈ subV sub v ↔ SubShape sub p ∧ getAt v p = some w)
+    (PK := fun _ => True)
+    (PL := fun xs => ∀ i p w, (p, w) ∈ subL sub i xs ↔
+      ∃ j x r, xs[j]? = some x ∧ p = Seg.idx (i + j) :: r ∧ SubShape sub r ∧ getAt x r = some w)
+    ?_ ?_ ?_ trivial (fun _ _ _ _ _ => trivial) ?_ ?_
+  · exact ⟨h.1, h.2.2⟩
+  · intro c kvs _ p w
+    simp only [subV]
+    constructor
+    · intro h
+      cases hl : lookup sub kvs with
+      | none => rw [hl] at h; cases h
+      | some x =>
+        rw [hl] at h
+        simp only [List.mem_singleton, Prod.mk.injEq] at h
+        obtain ⟨rfl, rfl⟩ := h
+        exact ⟨⟨[], rfl⟩, by simp [Val.getAt, child, hl]⟩
+    · rintro ⟨⟨is, rfl⟩, hg⟩
+      cases is with
+      | nil =>
+        simp only [List.map_nil, List.nil_append, Val.getAt, child] at hg
+        cases hl : lookup sub kvs with
+        | none => rw [hl] at hg; cases hg
+        | some x =>
+          rw [hl] at hg
+          simp only [Option.bind_some, Option.some.injEq] at hg
+          subst hg
+          simp
+      | cons i is => simp [Val.getAt, child] at hg
+  · intro c xs ih p w
+    simp only [subV, ih 0]
+    constructor
+    · rintro ⟨j, x, r, hx, rfl, ⟨is, rfl⟩, hg⟩
+      refine ⟨⟨j :: is, by simp⟩, ?_⟩
+      simp only [Val.getAt, child, Nat.zero_add, hx, Option.bind_some]
+      exact hg
+    · rintro ⟨⟨is, rfl⟩, hg⟩
+      cases is with
+      | nil => simp [Val.getAt, child] at hg
+      | cons n is =>
+        simp only [List.map_cons, List.cons_append, Val.getAt, child] at hg
+        cases hl : xs[n]? with
+        | none => rw [hl] at hg; cases hg
+        | some x =>
+          rw [hl] at hg
+          exact ⟨n, x, _, hl, by simp, ⟨is, rfl⟩, hg⟩
+  · intro v hv p w
+    constructor
+    · intro h; cases v <;> simp [isContainer] at hv <;> simp [subV] at h
+    · rintro ⟨⟨is, rfl⟩, hg⟩
+      cases is <;> cases v <;> simp [isContainer] at hv <;> simp [Val.getAt, child] at hg
+  · intro i p w
+    simp [subL]
+  · intro x xs ihv ihl i p w
+    simp only [subL, List.mem_append, List.mem_map, ihl]
+    constructor
+    · rintro (⟨⟨r, w'⟩, hm, heq⟩ | ⟨j, x', r, hx, rfl, hq, hg⟩)
+      · simp only [Prod.mk.injEq] at heq
+        obtain ⟨rfl, rfl⟩ := heq
+        obtain ⟨hq, hg⟩ := (ihv r w').1 hm
+        exact ⟨0, x, r, by simp, rfl, hq, hg⟩
+      · exact ⟨j + 1, x', r, by simpa using hx, by simp; omega, hq, hg⟩
+    · rintro ⟨j, x', r, hx, rfl, hq, hg⟩
+      cases j with
+      | zero =>
+        left
+        simp only [List.getElem?_cons_zero, Option.some.injEq] at hx
+        subst hx
+        exact ⟨(r, w), (ihv r w).2 ⟨hq, hg⟩, rfl⟩
+      | succ j =>
+        right
+        simp only [List.getElem?_cons_succ] at hx
+        exact ⟨j, x', r, hx, by simp; omega, hq, hg⟩
+
+/-- `tailOfL sub (descV name t)` lists `(p, v)` iff `p` is `… name`, any number of indexes, `sub` and `v` is the
+node there -/
+theorem fatl_tail_mem_getAt (name sub : Str) (t : Val) (hk : KeysOkV t) (p : Pos) (v : Val) :
+    (p, v) ∈ tailOfL sub (descV name t) ↔
+      ∃ (q : Pos) (is : List Nat), p = q ++ [Seg.key name] ++ is.map Seg.idx ++ [Seg.key sub] ∧ getAt t p = some v := by
+  constructor
+  · intro h
+    obtain ⟨b, hb, hm⟩ := List.mem_flatMap.1 h
+    obtain ⟨y, hy, heq⟩ := List.mem_map.1 hm
+    simp only [Prod.mk.injEq] at heq
+    obtain ⟨rfl, rfl⟩ := heq
+    obtain ⟨⟨q, hq⟩, hg⟩ := ((fad_desc_mem name).1 t hk b.1 b.2).1 hb
+    obtain ⟨⟨is, his⟩, hg2⟩ := ((fatl_sub_mem sub).1 b.2 y.1 y.2).1 hy
+    refine ⟨q, is, by rw [hq, his]; simp, ?_⟩
+    rw [getAt_append, hg]
+    exact hg2
+  · rintro ⟨q, is, rfl, hg⟩
+    have e : q ++ [Seg.key name] ++ is.map Seg.idx ++ [Seg.key sub] =
+        (q ++ [Seg.key name]) ++ (is.map Seg.idx ++ [Seg.key sub]) := by simp
+    rw [e, getAt_append] at hg
+    cases hw : getAt t (q ++ [Seg.key name]) with
+    | none => rw [hw] at hg; cases hg
+    | some w =>
+      rw [hw] at hg
+      rw [e]
+      refine List.mem_flatMap.2 ⟨(q ++ [Seg.key name], w), ((fad_desc_mem name).1 t hk _ _).2 ⟨⟨q, rfl⟩, hw⟩, ?_⟩
+      exact List.mem_map.2 ⟨(is.map Seg.idx ++ [Seg.key sub], v),
+        ((fatl_sub_mem sub).1 w _ v).2 ⟨⟨is, rfl⟩, hg⟩, rfl⟩
+
 end N0.FindAll
